@@ -236,19 +236,10 @@ func (s *evalState) run(ss []Stmt, n int) {
 }
 
 // Eval returns the first n (local output index, value) writes under Go
-// semantics with wrap-around at the register size. The second result is false
-// when the program uses a construct whose lowering the repository's ISA
-// simulator does not implement (==  is lowered to the `je` opcode, whose
-// Simulate is a stub), so the emitted machine cannot be executed there.
+// semantics with wrap-around at the register size (the second result is
+// always true; which executor can run the emitted machine is the harness's
+// business: see RegsOnly and UsesEq).
 func (p *Program) Eval(n int, maxSteps int) ([][2]uint64, bool) {
-	if p.UsesEq {
-		return nil, false
-	}
-	for _, v := range p.Vars {
-		if !v.Reg {
-			return nil, false // memory variables are lowered to r2m/m2r, whose Simulate is a stub
-		}
-	}
 	s := &evalState{p: p, vars: make([]uint64, len(p.Vars))}
 	if p.Rsize == 64 {
 		s.mask = ^uint64(0)
@@ -260,4 +251,15 @@ func (p *Program) Eval(n int, maxSteps int) ([][2]uint64, bool) {
 		s.run(p.Loop, n)
 	}
 	return s.out, true
+}
+
+// RegsOnly reports whether every variable is a register variable (memory
+// variables are lowered to r2m/m2r, which only the hardware implements).
+func (p *Program) RegsOnly() bool {
+	for _, v := range p.Vars {
+		if !v.Reg {
+			return false
+		}
+	}
+	return true
 }
